@@ -74,11 +74,14 @@ def make_load(b, coef, unit, gen_id):
         p, v, t = qsi(angular_position), qsi(angular_speed), qsi(time)
         b.load_log.append((p, v, t, len(b.pt.time), gen_id))
         val = coef[0] + coef[1] * p + coef[2] * v + coef[3] * t + coef[4] * v * abs(v)
-        out = from_si('Torque', val, unit)
+        u_ = unit
+        if getattr(b, 'load_units', None):
+            u_ = b.load_units[len(b.pt.time) % len(b.load_units)]      # a load function that answers in different torque units
+        out = from_si('Torque', val, u_)
         if getattr(b, 'load_numpy', False):
             import numpy as _np
             out = _np.float64(out)      # a load function written with numpy returns numpy scalars (numpy.float64 is a float)
-        return U.Torque(out, unit)
+        return U.Torque(out, u_)
     return external_torque
 
 
@@ -199,6 +202,7 @@ def build(spec):
     b.load_gen = 0
     b.load_inplace = spec['load'].get('inplace')
     b.load_numpy = bool(spec['load'].get('numpy'))
+    b.load_units = spec['load'].get('units')
     b.E[-1].external_torque = make_load(b, spec['load']['coef'], spec['load']['unit'], 0)
     ini = spec['init']
     b.E[-1].angular_position = Q(ini.get('pos_kind', 'AngularPosition'), ini['pos'])
